@@ -38,6 +38,7 @@ def build(tier="quick", seed=0):
     cascade(b)
     orbit_derivatives(b)
     global_collapse(b)
+    layered_collapse(b)
     b.replayer("*::ensures:love_numbers_current*", _replay_fixed_q)
     b.replayer("*::invariant:compliance_is_reciprocal_shear*", _replay_strength)
     b.replayer("*::ensures:orbit_is_told*", _replay_strength)
@@ -609,6 +610,86 @@ def global_collapse(b):
            detail=f"{len(seen)} call(s); values visible at the call: {[str(x_) for x_ in (seen[0] if seen else ())]}"[:400])
     ret = paths[0].value
     ground(b, f"{mfn.key}::ensures:returns_current", mfn.key, "ensures the method returns the stored heating and potential derivatives", isinstance(ret, tuple) and len(ret) == 4 and all(x_ is y_ or x_ == y_ for x_, y_ in zip(ret, outs[:4])), detail=str(ret)[:200])
+
+
+def layered_collapse(b):
+    """LayeredTides.collapse_modes, per-layer part: each tidally active layer's collapse is evaluated with THAT layer's shear modulus and complex
+    compliances, the scale / radius / density / gravity its getters return NOW (world-level getters override the last three when present), the host's mass,
+    the current susceptibility and tidal terms, and cpl_ctl_method=False; its outputs are stored under that layer's key; an inactive layer gets None."""
+    rel = "TidalPy/tides/methods/layered.py"
+    try:
+        fn = Fn(rel, "LayeredTides.collapse_modes")
+    except ExtractError as e:
+        b.subset_exits.append(str(e))
+        return
+    loops = [n for n in ast.walk(fn.node) if isinstance(n, ast.For) and "_tidal_input_getters_by_layer" in ast.unparse(n.iter)]
+    if len(loops) != 1:
+        b.subset_exits.append(f"{fn.key}: per-layer loop not found ({len(loops)})")
+        return
+    loop = loops[0]
+    parent = [n for n in ast.walk(fn.node) if hasattr(n, "body") and isinstance(getattr(n, "body"), list) and loop in n.body]
+    if len(parent) != 1:
+        b.subset_exits.append(f"{fn.key}: enclosing block of the per-layer loop not found")
+        return
+    body = parent[0].body
+    stmts = body[:body.index(loop) + 1]
+    for world_getters in (False, True):
+        rec = []
+
+        def mk_layer(nm, active=True):
+            return Obj(None, name=nm, shear_modulus=R(nm + "_mu") if active else None, rheology=Obj(None, complex_compliances=(R(nm + "_J") if active else None)))
+        L1, L2, L3 = mk_layer("core"), mk_layer("ocean"), mk_layer("mantle")
+        getter = lambda v_: (lambda ex, node_: v_)
+        inputs = {L1: (getter(R("core_scale")), getter(R("core_R")), getter(R("core_rho")), getter(R("core_g"))), L2: None,
+                  L3: (getter(R("mantle_scale")), getter(R("mantle_R")), getter(R("mantle_rho")), getter(R("mantle_g")))}
+        outs = {}
+
+        def collapse(ex, node_, *a_, **k_):
+            o_ = tuple(R(f"out{len(rec)}_{i}") for i in range(7))
+            rec.append((tuple(a_), dict(k_), o_))
+            return o_
+        o = Obj(None, _tidal_input_getters_by_layer=inputs, _world_tidal_input_getters=((getter(R("world_R")), getter(R("world_rho")), getter(R("world_g"))) if world_getters else None),
+                collapse_modes_func=collapse, tidal_host=Obj(None, mass=R("host_mass")), tidal_susceptibility=R("chi_now"), tidal_terms_by_frequency=R("terms_now"), max_tidal_order_lvl=sp.Integer(2),
+                _effective_q_by_orderl=None, _global_negative_imk_by_orderl=None, _global_love_by_orderl=None)
+        fr, ex, paths = run_fragment(b, fn, stmts, f"per_layer[world_getters={int(world_getters)}]", dict(self=o), [], opts=dict(definedness=False))
+        if not paths:
+            continue
+        if len(paths) != 1:
+            b.subset_exits.append(f"{fr.key}: {len(paths)} paths")
+            continue
+        env = paths[0].env
+        tag = f"[world_getters={int(world_getters)}]"
+        ok_calls = len(rec) == 2
+        detail = ""
+        if ok_calls:
+            for (a_, k_, o_), L, nm in zip(rec, (L1, L3), ("core", "mantle")):
+                names = ("gravity", "radius", "density", "shear_modulus", "tidal_scale", "tidal_host_mass", "tidal_susceptibility", "complex_compliance_by_frequency", "tidal_terms_by_frequency", "max_order_l")
+                bound = dict(zip(names, a_), **k_)
+                src = "world" if world_getters else nm
+                want = dict(gravity=R(src + "_g"), radius=R(src + "_R"), density=R(src + "_rho"), shear_modulus=R(nm + "_mu"), tidal_scale=R(nm + "_scale"), tidal_host_mass=R("host_mass"), tidal_susceptibility=R("chi_now"),
+                            complex_compliance_by_frequency=R(nm + "_J"), tidal_terms_by_frequency=R("terms_now"), max_order_l=sp.Integer(2), cpl_ctl_method=False)
+                wrong = {k2: str(bound.get(k2)) for k2, v2 in want.items() if not (bound.get(k2) is v2 or bound.get(k2) == v2)}
+                if wrong:
+                    ok_calls = False
+                    detail += f"{nm}: {wrong}; "
+        else:
+            detail = f"{len(rec)} calls"
+        ground(b, f"{fn.key}::ensures:per_layer_arguments{tag}", fn.key, "ensures one collapse per tidally active layer, with that layer's own shear modulus, compliances and scale, the current radius / density / gravity from its (or the world's) getters, host mass, susceptibility, terms, cpl_ctl_method=False",
+               ok_calls, detail=detail[:400], refuted_model=None if ok_calls else dict(wrong=detail[:300]))
+        ok_store = ok_calls
+        if ok_calls:
+            for (a_, k_, o_), L in zip(rec, (L1, L3)):
+                for dname, idx in (("tidal_heating_by_layer", 0), ("dUdM_by_layer", 1), ("dUdw_by_layer", 2), ("dUdO_by_layer", 3), ("neg_imk_by_layer", 5)):
+                    d_ = env.get(dname)
+                    if not (isinstance(d_, dict) and L in d_ and (d_[L] is o_[idx] or d_[L] == o_[idx])):
+                        ok_store = False
+                        detail += f"{dname}[{L._attrs['name']}] = {d_.get(L) if isinstance(d_, dict) else d_}; "
+            for dname in ("tidal_heating_by_layer", "dUdM_by_layer", "dUdw_by_layer", "dUdO_by_layer"):
+                d_ = env.get(dname)
+                if not (isinstance(d_, dict) and L2 in d_ and d_[L2] is None):
+                    ok_store = False
+                    detail += f"{dname}[ocean] not None; "
+        ground(b, f"{fn.key}::ensures:per_layer_stores{tag}", fn.key, "ensures each layer's heating, dU/dM, dU/dw, dU/dO and -Im k are stored under that layer's key; an inactive layer gets None", ok_store, detail=detail[:400])
 
 
 def layered_sums(b):
